@@ -1,3 +1,61 @@
-From PV Require Import Model.Crowding.
-Theorem placeholder : True. Proof. exact I. Qed.
-Print Assumptions placeholder.
+(* C13  Crowding metrics are safe, well-formed and match their definitions.  Statements only.
+   Positive statements are about the wrappers of metrics.py (any number type).  The statements that are FALSE on the
+   pinned tree are proved as refutations on the binary64 instance of the kernel models, with concrete witnesses
+   (these are the known findings recorded in known_findings.json); the same witnesses are replayed on the real
+   kernels by the harness.  Equality of cd / ce / the pruning metrics with their published definitions is NOT
+   proved here: it is decided by correspondence (bit-exact model) plus an independent reference implementation. *)
+From Coq Require Import List Bool Arith ZArith PrimFloat.
+From PV Require Import Base.Num Base.NumF Base.Res Base.ListX Base.Cmp Model.Crowding Model.Fallback Model.Kernels Proofs.CrowdingP.
+Import ListNotations.
+
+(* one value per point of the caller's front, for every metric and every inner function *)
+Theorem C13_one_value_per_point :
+  forall (X : xnum) eps fdups mnn f (F : list (list X)) d,
+    functional_diversity (X := X) eps fdups mnn f F = Some d -> length d = length F.
+Proof. exact @functional_diversity_length. Qed.
+Print Assumptions C13_one_value_per_point.
+
+Theorem C13_cd_one_value_per_point :
+  forall (X : xnum) (F : list (list X)), length (calc_crowding_distance (X := X) F) = length F.
+Proof. exact @calc_crowding_distance_length. Qed.
+Print Assumptions C13_cd_one_value_per_point.
+
+(* fronts of at most two points: everybody is infinitely uncrowded *)
+Theorem C13_short_fronts :
+  forall (X : xnum) eps fdups mnn f (F : list (list X)), length F <= 2 ->
+    functional_diversity (X := X) eps fdups mnn f F = Some (repeat (pinf X) (length F)).
+Proof. exact @functional_diversity_short. Qed.
+Print Assumptions C13_short_fronts.
+
+(* ---- known finding compiled/pcd/OOB : memory safety of the compiled pcd kernel is refuted ---- *)
+Definition W_pcd : list (list float) := [[4; 0; 3]; [0; 3; 1]; [1; 1; 3]; [3; 1; 2]]%float.
+Theorem C13_pcd_memsafe_refuted :
+  exists (F : list (list float)) (k : Z), kernel_pcd (X := Fx) F k = Err (OOB 2).
+Proof. exists W_pcd, 0%Z. vm_compute. reflexivity. Qed.
+Print Assumptions C13_pcd_memsafe_refuted.
+
+(* ---- known findings compiled/mnn/OOB-read and compiled/mnn/dup-neighbour ---- *)
+Definition W_mnn : list (list float) :=
+  [[1; 2; 5]; [6; 3; 0]; [5; 0; 1]; [0; 4; 6]; [4; 1; 4]; [3; 6; 2]; [2; 5; 3]]%float.
+Definition W_mnn0 : list Z := [3; 4; 6; 2; 5; 4; 1; 4; 0; 0; 6; 4; 2; 0; 6; 6; 1; 3; 5; 3; 0]%Z.
+
+(* the model reads D[0, -1] (flag), although the run goes on with correct control flow *)
+Theorem C13_mnn_memsafe_refuted :
+  exists d dup, kernel_mnn (X := Fx) false W_mnn 2%Z W_mnn0 = Ok (d, (dup, true)).
+Proof. eexists. eexists. vm_compute. reflexivity. Qed.
+Print Assumptions C13_mnn_memsafe_refuted.
+
+(* on a front without coordinate ties the compiled mnn value of point 4 differs from the value obtained by greedy
+   removal and re-computation from scratch (the pure-Python engine), because a neighbour is listed twice *)
+Theorem C13_mnn_value_refuted :
+  exists d, kernel_mnn (X := Fx) false W_mnn 2%Z W_mnn0 = Ok (d, (true, true)) /\
+            fsame (nth 4 d nan) (nth 4 (fallback_mnn (X := Fx) false W_mnn 2%Z) nan) = false.
+Proof. eexists. split; vm_compute; reflexivity. Qed.
+Print Assumptions C13_mnn_value_refuted.
+
+(* the same witness is handled identically by both engines when nothing has to be pruned *)
+Example C13_engines_agree_without_pruning :
+  match kernel_mnn (X := Fx) false W_mnn 0%Z W_mnn0 with
+  | Ok (d, _) => flist_same d (fallback_mnn (X := Fx) false W_mnn 0%Z)
+  | Err _ => false end = true.
+Proof. vm_compute. reflexivity. Qed.
